@@ -25,6 +25,10 @@ import (
 
 var sSetupOnce sync.Once
 
+// sSyncSequencerLoad: run the flush-time reload to completion inside openShard
+// (sequential worlds).  World C sets it to false to keep the reload asynchronous.
+var sSyncSequencerLoad = true
+
 // sSetup neutralises process-global background work so that reorganisation only
 // happens when the scheduler issues it as an operation.
 func sSetup() {
@@ -183,6 +187,18 @@ func openShard(root string, k SKnobs, clock uint64) (*sNode, error) {
 	// reorganisation happens only as a scheduled operation
 	sh.immTables.CompactionDisable()
 	sh.immTables.MergeDisable()
+	// The per-series flush times are reloaded asynchronously by the first write after a
+	// restart; in the sequential regime that background task is run to completion right
+	// here, before any other operation (its interleavings with writes, flushes, merges
+	// and close are world C's subject: leads L1/L2 were both races with it).
+	if sSyncSequencerLoad {
+		sh.immTables.LoadSequencer()
+		seq := sh.immTables.Sequencer()
+		for k := 0; k < 5000 && seq.IsLoading(); k++ {
+			time.Sleep(time.Millisecond)
+		}
+		seq.UnRef()
+	}
 	return &sNode{root: root, sh: sh, ib: ib}, nil
 }
 
